@@ -12,6 +12,8 @@ MCModes == {"dir", "single"}
 MCModDocs == {[kind |-> "absent", body |-> FALSE], [kind |-> "unnamed", body |-> TRUE], [kind |-> "unnamed", body |-> FALSE],
               [kind |-> "named", body |-> TRUE], [kind |-> "named", body |-> FALSE]}
 MCHeaders == {<<"#">>, <<"=", "-">>, <<"~">>}
+MCBefores == {"none", "dir", "file"}
+SharedSettings == {"D_SettingsSharedAcrossInputs"}
 NoDev == {}
 CurrentDev == {}
 =============================================================================
